@@ -492,3 +492,37 @@ Proof.
     - rewrite H in E5. discriminate E5. }
   rewrite Ha, Hcid. cbn [negb]. unfold dispatch. rewrite E0. reflexivity.
 Qed.
+
+(* ---- established connections: [recv_est true] ---- *)
+
+(* an established connection either ignores the record (an unprotected alert) or treats it exactly
+   as [recv] does: every statement above about one arrival carries over *)
+Lemma recv_est_cases est W lease s w :
+  recv_est est W lease s w = (s, []) \/ recv_est est W lease s w = recv W lease s w.
+Proof. unfold recv_est. destruct (est && unprotected_alert w); [now left | now right]. Qed.
+
+Lemma recv_est_protected est W lease s w :
+  w_epoch w <> 0 -> recv_est est W lease s w = recv W lease s w.
+Proof.
+  intros He. unfold recv_est, unprotected_alert.
+  destruct (w_epoch w =? 0) eqn:E; [lia|]. now rewrite Bool.andb_false_r.
+Qed.
+
+(* once the handshake is complete an unprotected alert changes nothing: no close, no reply, no
+   error for Read, no mark in the replay window *)
+Theorem unprotected_alert_inert_established W lease s w :
+  unprotected_alert w = true -> recv_est true W lease s w = (s, []).
+Proof. intros H. unfold recv_est. now rewrite H. Qed.
+
+Corollary forged_inert_est est W lease s w :
+  w_epoch w <> 0 -> w_ctype w <> ct_ccs -> w_auth w = None ->
+  snd (recv_est est W lease s w) = snd (recv W lease s w) /\
+  fst (recv_est est W lease s w) = fst (recv W lease s w).
+Proof. intros He _ _. now rewrite (recv_est_protected est W lease s w He). Qed.
+
+Theorem deliver_only_authentic_est est W lease s w p e q :
+  In (ODeliver p e q) (snd (recv_est est W lease s w)) ->
+  In (ODeliver p e q) (snd (recv W lease s w)).
+Proof.
+  destruct (recv_est_cases est W lease s w) as [H | H]; rewrite H; [intros [] | auto].
+Qed.
